@@ -197,6 +197,12 @@ def run(chk, repo, tier):
     chk.clause('C03-p', 'segment tilts stay with their own field through products; the FFT branch sums the segment fields in one zeroed region', 3)
     from . import common as _common, c09 as _c09
     _common.mul_concat(chk, repo, 'C03-p')
+    # a segmented plane and its copies are independent (a tilt fit on a copy extends the copy's tilt list only), and the
+    # tilts a field carries are folded one after the other, each fed the displacement accumulated so far
+    from .c10 import plane_copy_rules as _plane_copy_rules
+    _plane_copy_rules(chk, repo, 'C03-p')
+    from .c04 import folding as _folding
+    _folding(_common.Remap(chk, {'C04-d': 'C03-p'}), repo, 'C04-d')
     from .prop_flow import own_storage_rule
     own_storage_rule(chk, repo, 'C03-p')
     # segments stay mutually coherent through a tilt fit: only tip and tilt leave a segment's OPD, never its piston
